@@ -114,7 +114,8 @@ class Statement(object):
             self.comment = data.group("comment").strip()
             return
 
-        data = ASM_LINE_REGEX.match(line)
+        # The last line of a file may lack the line end that follows an instruction without operands
+        data = ASM_LINE_REGEX.match(line if line.endswith("\n") else line + "\n")
         if data:
             self.label = data.group("label") or ""
             self.mnemonic = data.group("mnemonic").upper() or ""
